@@ -46,6 +46,14 @@ def synthetic(m):
     s["ZV"].equals(3 * s["X1"] * s["X2"] * s["X3"])
     s["ZW"] = Power.unit("verif zw", "vzw")
     s["ZW"].equals(5 * s["X1"] * PoundForce / Second)
+    # isolated units of derived dimensions (no equivalences at all), and a connected pair
+    from measured import Frequency, Speed
+
+    s["PA"] = Area.unit("verif pa", "vpa")
+    s["SV"] = Speed.unit("verif sv", "vsv")
+    s["SW"] = Speed.unit("verif sw", "vsw")
+    s["SW"].equals(2 * s["SV"])
+    s["FQ"] = Frequency.unit("verif fq", "vfq")
     prev = None
     for i in range(41):
         c = Time.unit(f"verif c{i}", f"vc{i}")
@@ -76,6 +84,50 @@ def case_list(thorough):
             for b in ss:
                 if a != b:
                     cases.append(["pool", a, b])
+    # prefixed shapes: a prefix on the source, on the target, or on both
+    pre_units = ["Meter", "Foot", "Second", "Liter", "Acre", "Newton", "Joule", "Hertz"] if thorough else ["Meter", "Foot", "Liter", "Acre", "Joule"]
+    pre_idx = [i for i, p in enumerate(POOL) if p[1] in pre_units]
+    prefixes = ["kilo", "milli", "mebi", "micro"] if thorough else ["kilo", "milli"]
+    for i in pre_idx:
+        for j in pre_idx:
+            ui, uj = units[i], units[j]
+            for e in (1, 2, 3, -1, -2):
+                for f in (1, 2, 3, -1, -2):
+                    if (ui**e).dimension is not (uj**f).dimension:
+                        continue
+                    for p in prefixes:
+                        cases.append(["pre", i, e, p, j, f, None])
+                        cases.append(["pre", i, e, None, j, f, p])
+                        cases.append(["pre", i, e, p, j, f, "kilo"])
+    # compound shapes over the synthetic system (isolated and partially connected units
+    # inside products and quotients with ordinary units)
+    comp_atoms = ["X1", "X3", "X4", "ZA", "PA", "SV", "SW", "FQ", "Meter", "Second"]
+    syn_set = set(comp_atoms) - {"Meter", "Second"}
+    shapes = []
+    exps1 = (1, -1, 2)
+    for a in comp_atoms:
+        for e in exps1:
+            shapes.append(((a, e),))
+    import itertools as _it
+
+    for a, b in _it.combinations(comp_atoms, 2):
+        for e in ((1, 1), (1, -1), (-1, 1), (-1, -1)) + (((2, -1), (-1, 2), (1, 2)) if thorough else ()):
+            shapes.append(((a, e[0]), (b, e[1])))
+    tri_atoms = comp_atoms if thorough else ["X4", "PA", "SV", "FQ", "Meter", "Second"]
+    for a, b, c in _it.combinations(tri_atoms, 3):
+        for e in _it.product((1, -1), repeat=3):
+            shapes.append(((a, e[0]), (b, e[1]), (c, e[2])))
+    vec = {"X1": (1, 0), "X3": (1, 0), "X4": (1, 0), "ZA": (2, 0), "PA": (2, 0), "SV": (1, -1), "SW": (1, -1),
+           "FQ": (0, -1), "Meter": (1, 0), "Second": (0, 1)}
+    by_dim = {}
+    for sh in shapes:
+        d = (sum(vec[n][0] * e for n, e in sh), sum(vec[n][1] * e for n, e in sh))
+        by_dim.setdefault(d, []).append(sh)
+    for d, group in sorted(by_dim.items()):
+        for sa in group:
+            for sb in group:
+                if sa != sb and (any(n in syn_set for n, _ in sa) or any(n in syn_set for n, _ in sb)):
+                    cases.append(["comp", [list(x) for x in sa], [list(x) for x in sb]])
     syn_names = ["X1", "X2", "X3", "X4", "ZA", "ZV", "ZW", "C0", "C20", "C40"]
     extra = ["Meter", "Second", "Watt", "Liter", "Acre"]
     atoms = [(n, e) for n in syn_names + extra for e in (1, -1, 2)]
@@ -120,6 +172,28 @@ def _resolve(case):
     if case[0] == "pool":
         a = build(_UNITS, [tuple(x) for x in case[1]])
         b = build(_UNITS, [tuple(x) for x in case[2]])
+    elif case[0] == "shapes-begin":
+        return w, measured.One, measured.One
+    elif case[0] == "pre":
+        _, i, e, p, j, f, q = case
+        P = measured.Prefix._by_name
+        a = _UNITS[i] ** e
+        b = _UNITS[j] ** f
+        if p:
+            a = P[p] * a
+        if q:
+            b = P[q] * b
+    elif case[0] == "comp":
+        import measured.si as si
+
+        def shape(spec):
+            u = None
+            for n, e in spec:
+                f = (_SYN[n] if n in _SYN else getattr(si, n)) ** e
+                u = f if u is None else u * f
+            return u
+
+        a, b = shape(case[1]), shape(case[2])
     else:
         import measured.si as si
         import measured.us as us
@@ -176,6 +250,13 @@ print(json.dumps({"optimize": sys.flags.optimize, "rows": c07.table(%r)}))
 def case_name(case):
     if case[0] == "pool":
         return f"{spec_name(POOL, case[1])} -> {spec_name(POOL, case[2])}"
+    if case[0] == "pre":
+        _, i, e, p, j, f, q = case
+        return f"{p or ''}({POOL[i][1]}^{e}) -> {q or ''}({POOL[j][1]}^{f})"
+    if case[0] == "comp":
+        return "*".join(f"{n}^{e}" for n, e in case[1]) + " -> " + "*".join(f"{n}^{e}" for n, e in case[2])
+    if case[0] == "shapes-begin":
+        return "-"
     return f"{case[1]}^{case[2]} -> {case[3]}^{case[4]}"
 
 
